@@ -50,6 +50,12 @@ def decl_specs(tier):
     for c in ('sns', 'ss', 'os', 'p_seq', 'sw'):
         for ce in ('little', 'local'):
             specs.append({'names': [c, 'x3defu'], 'wrapper': 'a', 'opts': {'endianness': ce}})
+    # the NESTED class alone runs the field-by-field loop (both directions / one of them) inside holders with generated code
+    for c in ('p_at3', 'p_atn', 'p_atl', 'p_al6i', 'p_al4i', 'p_aln', 'p_em2i', 'p_ref', 'p_d0', 'p_al2', 'p_shm1', 'sn', 'r1', 'o1', 'dn'):
+        for w in 'bcd':
+            for o in ({'generate_for_pack': False, 'generate_for_unpack': False}, {'generate_for_pack': False}, {'generate_for_unpack': False}):
+                specs.append({'names': ['i1', c], 'wrapper': w, 'opts': o})
+    specs.extend(alphabet.boundary_specs())
     specs.extend(alphabet.families())
     return specs
 
